@@ -66,7 +66,7 @@ Qed.
 
 Lemma finv_step cfg s l s' : GInv cfg s -> NS s -> FInv cfg s -> step s l = Some s' -> FInv cfg s'.
 Proof.
-  intros Hg [Hp Hc Hd Ht Hs Hm Hl He] Hf H. unfold step in H. unfold dead in H. rewrite Hp, Hm in H.
+  intros Hg [Hp Hc Hd Ht Hs Hm Hl Hcap He] Hf H. unfold step in H. unfold dead in H. rewrite Hp, Hm in H.
   destruct l as [k|alt| |j r alt].
   - destruct (nth_error (s_env s) k) as [e|] eqn:Ek; [|discriminate]. injection H as <-.
     intros i c a Hci Hfi Ha. cbn in *. eapply (finv_env cfg s e); eauto. eapply no_stop_nth; eauto.
@@ -127,7 +127,7 @@ Proof.
   destruct H as [[_ Hn] Hf]. destruct (Hf i c a Hc Hfi Ha) as [_ H2].
   assert (Hr : rep a = true) by (unfold rep; rewrite Ho; reflexivity).
   destruct (H2 Hr) as [Hin|Hm]; [rewrite Hbuf in Hin; destruct Hin|].
-  unfold fresh_setup_processed, in_map. rewrite Hm. destruct Hn as [_ _ _ _ _ _ Hl _]. rewrite Hl. auto.
+  unfold fresh_setup_processed, in_map. rewrite Hm. destruct Hn as [_ _ _ _ _ _ Hl _ _]. rewrite Hl. auto.
 Qed.
 
 (* the node's loop can always take a queued completion (it never leaves its select without Stop), so when no thread
@@ -141,7 +141,7 @@ Proof.
   { unfold run. apply (run_inv state tid step (fun s => GInv cfg s /\ NS s)).
     - intros s l s' [Hg Hn] Hs. split; [eapply ginv_step; eauto | eapply ns_step; eauto].
     - split; [apply ginv_init | apply ns_init; exact Hns]. }
-  destruct Hn as [_ [Hp Hc Hd Ht Hs Hm Hl He]].
+  destruct Hn as [_ [Hp Hc Hd Ht Hs Hm Hl Hcap He]].
   set (s := run (init cfg ev) sch) in *.
   unfold step in H. unfold dead in H. rewrite Hp, Hm in H. cbn in H.
   destruct (s_node s) as [cx pc dn ls mp ex bu mn th sp] eqn:End. cbn in *. subst cx th sp mn.
